@@ -16,6 +16,11 @@ CLAIMS = {
          "Generated histories over the full writer API and configuration space are checked against a sequential model after every commit / abort / rollback / merge / reopen, including opstamp laws; concurrent producers are checked by per-producer sequential replay and opstamp-range disjointness.",
          "thread interleavings are sampled (steered by the flush-every-N and pause-point hooks), never enumerated; document shapes are small (uid, group, 0-4 words, a number)",
          "DESIGN.md §3 C02"),
+ "C05": ("exploration",
+         "concurrent reader/writer histories with bounded holds at storage operations, fingerprints judged against the commit models on a logical clock (proptest)",
+         "A writer thread executes a generated history while 1-3 reader threads (same Index and a second Index::open) reload and fingerprint searchers and keep some alive; every observation must equal exactly one commit's model within the logical-time window, non-decreasing per reader, and held searchers never change (also after gc and writer shutdown).",
+         "schedules are sampled; the only steering is bounded holds of a reader at its n-th segment-file open (SimDir gates); the OnCommitWithDelay file watcher is not exercised",
+         "DESIGN.md §3 C05"),
  "C10": ("exploration",
          "quiescence (no-orphan / nothing-missing) predicate over generated histories on SimDir and MmapDirectory, and over recovered crash images (proptest)",
          "After every commit under NoMergePolicy and at the end of every generated history (merges joined, gc run) the directory listing must equal meta.json + committed segment files and .managed.json must match; crash images of generated histories are recovered, committed to, collected and checked for orphans.",
